@@ -349,3 +349,44 @@ def prog(cfg, depth=1, max_ops=None):
     max_ops = cfg.max_ops if max_ops is None else max_ops
     cls = st.sampled_from(['S'] * int(round((1 - cfg.cls_s) * 10)) + ['s'] * int(round(cfg.cls_s * 10)) or ['S'])
     return st.fixed_dictionaries({'cls': cls, 'ctor': ctor(cfg), 'ops': st.lists(op(cfg, depth), max_size=max_ops)})
+
+
+# ---------------------------------------------------------------- small-scope enumeration of values
+def small_ranges(n):
+    return [(a, b) for a in range(n) for b in range(a + 1, n + 1)]
+
+
+SMALL_RANGES = small_ranges(3)
+
+
+def small_steps(names, removes=True, n=3):
+    """every apply_formatting(name, a, b, topmost) and remove_formatting(name, a, b) on an n-character text"""
+    out = []
+    for nm in names:
+        for a, b in small_ranges(n):
+            for top in (True, False):
+                out.append({'op': 'apply', 's': [{'k': 'name', 'v': nm}], 'a': a, 'b': b, 'top': top})
+    if removes:
+        for nm in names:
+            for a, b in small_ranges(n):
+                out.append({'op': 'remove', 's': [{'k': 'name', 'v': nm}], 'a': a, 'b': b})
+    return out
+
+
+def small_values(names, depth, text='abc', cls='S'):
+    """every value reachable from the plain text by <= depth steps of small_steps() - including histories with
+    equal-valued duplicates, inserts below (topmost=False) and removals that leave restart pairs.  A history whose
+    first step is a removal is skipped (it equals the shorter one)."""
+    import itertools
+    steps = small_steps(names, n=len(text))
+    for d in range(depth + 1):
+        for seq in itertools.product(steps, repeat=d):
+            if seq and seq[0]['op'] == 'remove':
+                continue
+            yield {'cls': cls, 'ctor': {'k': 'plain', 't': text}, 'ops': [dict(x) for x in seq]}
+
+
+def small_scopes(tier):
+    """(names, depth, text) scopes: three names two steps deep, and two conflicting names three steps deep (the shortest
+    histories with a below-insert, its removal and a further application) - on 2 characters in the quick tier"""
+    return [(['red', 'blue', 'bold'], 2, 'abc'), (['red', 'blue'], 3, 'ab' if tier == 'quick' else 'abc')]
